@@ -86,3 +86,33 @@ Fixpoint mrun (s : mstate) (sched : list nat) : option mstate :=
 
 Definition minit (paths : list (list clev)) : mstate :=
   {| writer := false; readers := 0; threads := map start paths |}.
+
+(** ** nothing foreign under the lock (C06)
+    The second view of the same paths (Gen/CtxLockSites.v, [fev]): lock operations, and the operations
+    during which code of the CALLER runs or the goroutine may block for as long as someone else
+    pleases (a method of a caller-supplied FContext, a function handed one, a channel send).
+    [fheld h p]: is the mutex held after the prefix [p], starting from [h]? A deferred unlock runs at
+    the end of the function: it releases nothing before. *)
+Fixpoint fheld (h : bool) (p : list fev) : bool :=
+  match p with
+  | [] => h
+  | FLock :: r => fheld true r
+  | FUnlock :: r => fheld false r
+  | FDeferUnlock :: r => fheld h r
+  | FForeign :: r => fheld h r
+  end.
+
+Fixpoint foreign_ok (h : bool) (p : list fev) : bool :=
+  match p with
+  | [] => true
+  | FLock :: r => foreign_ok true r
+  | FUnlock :: r => foreign_ok false r
+  | FDeferUnlock :: r => foreign_ok h r
+  | FForeign :: r => negb h && foreign_ok h r
+  end.
+
+Definition all_foreign_ok (ms : list (String.string * list (list fev))) : bool :=
+  forallb (fun m => forallb (foreign_ok false) (snd m)) ms.
+
+Definition has_foreign (p : list fev) : bool :=
+  existsb (fun e => match e with FForeign => true | _ => false end) p.
